@@ -376,6 +376,11 @@ def _scripts(tier, seed, scale=1):
         for fn in ("number", "string", "cint"):
             sel = nums if (thorough or fn != "cint") else nums[::4]
             out += _chunks("num:%s:%s" % (fn, t), ["c text %s %s %s" % (fn, t, gen.hexs(x.encode("utf-8", "surrogateescape"))) for x in sel], 10)
+    # texts without a numeral only (a script stops at its first failing op: kept apart from the numerals)
+    garbage = ["abc", "x1", "-", "+", "--1", "+-2", " z", "\t", ".5", "e5", "- 1", "0x", "-0x", "z9", "\x80", "_1"]
+    for t in TEXT_TGT:
+        for fn in ("number", "string", "cint"):
+            out += _chunks("num:none:%s:%s" % (fn, t), ["c text %s %s %s" % (fn, t, gen.hexs(x.encode("latin-1"))) for x in garbage], 8)
     for t in FLTS:
         out += _ftext_scripts(t, thorough)
     # values through a variadic call (mpt_process_vararg / mpt_value_argv) and through mpt_fpoint_set
